@@ -522,7 +522,7 @@ class Body:
         else:
             alts = tuple(sorted(set(self._def_term(d, depth + 1) for d in ds), key=repr))
             t = alts[0] if len(alts) == 1 else ("phi", alts, l)
-        if l in self.inplace and t[0] not in ("param", "env", "cparam"):
+        if l in self.inplace and t[0] not in ("param", "env", "cparam", "upvar"):
             t = ("mutated", t, tuple(sorted(self.inplace[l])))
         self._term_cache[key] = t
         return t
